@@ -53,9 +53,17 @@ def gen(rng, prop=None):
     rows = []
     secs = sorted(rng.choice([0, 0, 0, 3600 * 23, 43207]) for _ in range(n))
     prices = rng.choice([[1, 2, 2, 3, 5], [2, 2, 3], [1, 2, 3, 4, 5, 6, 7]])
+    subsec = rng.random() < 0.25          # several transactions inside one second, told apart only by microseconds
+    if rng.random() < 0.3:
+        # instants around New Year (days 121/122 = 2019-12-31 / 2020-01-01, 487/488, 852/853) and near midnight, often in one non-UTC zone:
+        # the year that selects the accounting method is the year of the transaction's own (local) timestamp
+        pool = sorted(set(rng.choice([121, 122, 487, 488, 852, 853]) for _ in range(rng.randint(2, 5))) | {rng.randint(0, 120)})
+        secs = sorted(rng.choice([0, 1800, 3 * 3600 + 1800, 10 * 3600, 20 * 3600, 23 * 3600 + 1800]) for _ in range(n))
+        if offs == [0] and rng.random() < 0.7:
+            offs = [rng.choice([9 * 3600, -5 * 3600, 14 * 3600, -12 * 3600, 5 * 3600 + 1800, -8 * 3600])]
     for idx in range(n):
         d = pool[min(len(pool) - 1, idx * len(pool) // n)]
-        inst = datetime(2019, 9, 1, tzinfo=timezone.utc) + timedelta(days=d, seconds=secs[idx])
+        inst = datetime(2019, 9, 1, tzinfo=timezone.utc) + timedelta(days=d, seconds=secs[idx], microseconds=(idx * 1000 + rng.choice([0, 1, 500000])) if subsec else 0)
         off = rng.choice(offs)
         kind = rng.choice(["buy", "buy", "earn", "earn", "sell", "sell", "fee", "move"]) if idx > 0 else rng.choice(["buy", "earn"])
         price = rng.choice(prices) * 100 * U
